@@ -66,6 +66,7 @@ type Pipe struct {
 	pending []*pendingSend
 	added   bool
 	removed int32
+	recving int32 // 1 while the protocol's receiver goroutine is parked in RecvMsg
 	// Scribble: overwrite the message buffers after a successful send (the transport owns and
 	// releases the message, so its buffer may be reused at once).
 	Scribble bool
@@ -205,6 +206,8 @@ func (p *Pipe) SendMsg(m *mangos.Message) error {
 
 // RecvMsg implements ProtocolPipe.
 func (p *Pipe) RecvMsg() *mangos.Message {
+	atomic.StoreInt32(&p.recving, 1)
+	defer atomic.StoreInt32(&p.recving, 0)
 	select {
 	case m := <-p.rq:
 		return m
@@ -235,6 +238,10 @@ func (p *Pipe) Inject(body []byte, wait time.Duration) bool {
 		return false
 	}
 }
+
+// Receiving reports whether the protocol's receiver goroutine is currently waiting in RecvMsg
+// (false while it is busy or blocked elsewhere with the previous message: an Inject would not be taken).
+func (p *Pipe) Receiving() bool { return atomic.LoadInt32(&p.recving) == 1 }
 
 // Removed returns how many times the protocol was told of this pipe's removal.
 func (p *Pipe) Removed() int { return int(atomic.LoadInt32(&p.removed)) }
